@@ -128,9 +128,14 @@ impl CGen {
     }
 
     fn data_int(&mut self) -> i128 {
-        match self.r.below(3) {
+        match self.r.below(4) {
             0 => boundary_i128(&mut self.r),
             1 => self.r.range(-100, 100) as i128,
+            // the edges of the machine words an encoder may pass through: 32 and 64 bits, signed and unsigned
+            2 => {
+                let edge = *self.r.pick(&[1i128 << 31, 1 << 32, 1 << 63, 1 << 64, -(1i128 << 31), -(1i128 << 63), -(1i128 << 64)]);
+                edge + self.r.range(-2, 2) as i128
+            }
             _ => self.r.range(0, 1 << 40) as i128,
         }
     }
